@@ -72,6 +72,8 @@ inductive Pc where
   | c0
   /-- inside the transform as a reader (between the yields `dft:begin-as-reader` and `dft:end-as-reader`) -/
   | rd
+  /-- reader inside the transform, past the point where `rdft`/`cdft` first dereference the shared tables (hook `table-use`) -/
+  | ru
   /-- `DONE_WITH_FFT_CACHE(false)` = `ccrw2_cease_reading`: P(mutex_1) -/
   | x1
   /-- `!--readcount`? -/
@@ -104,6 +106,9 @@ inductive Pc where
   | b0
   /-- inside the transform as the writer (yield `dft:begin-as-writer`); `rdft` rebuilds the tables (`makewt`/`makect`) first -/
   | wt
+  /-- writer inside the transform, past the point where `rdft`/`cdft` first dereference the tables (hook `table-use`); the rebuild
+      (`makewt`/`makect`) follows -/
+  | wu
   /-- transform done (yield `dft:end-as-writer`); `DONE_WITH_FFT_CACHE(true)` = `ccrw2_cease_writing`: V(w) -/
   | y1
   /-- P(mutex_2) -/
@@ -157,13 +162,13 @@ structure St where
   (gw gr nInit nReset nStore : Nat)
   /-- (`len`, `old_n == 0`) of the threads at `b0` -/
   pend : List (Int × Bool)
-  /-- `len` of the threads at `wt` -/
+  /-- `len` of the threads at `wt` / `wu` -/
   wtl : List Int
 
 /-- what the scheduler harness can see of a step: nothing (`tau`), a P (`omp_set_lock` returned), a V (`omp_unset_lock`),
-    or an `omp_init_lock` -/
+    an `omp_init_lock`, or the first dereference of the shared tables inside a transform (`use`, hook `soxr_verif_table_use`) -/
 inductive Vis where
-  | tau | p (l : Lock) | v (l : Lock) | ini (l : Lock)
+  | tau | p (l : Lock) | v (l : Lock) | ini (l : Lock) | use
   deriving DecidableEq, Repr, Inhabited
 
 /-- one atomic step of one thread -/
@@ -188,6 +193,8 @@ inductive Label where
   | r8
   | c0_ok
   | c0_grow
+  | use_r
+  | use_w
   | rd_end
   | x1
   | x2_last
@@ -255,7 +262,9 @@ def Label.src : Label → Pc
   | .r8 => .r8
   | .c0_ok => .c0
   | .c0_grow => .c0
-  | .rd_end => .rd
+  | .use_r => .rd
+  | .use_w => .wt
+  | .rd_end => .ru
   | .x1 => .x1
   | .x2_last => .x2
   | .x2_more => .x2
@@ -275,7 +284,7 @@ def Label.src : Label → Pc
   | .c1_pass _ => .c1
   | .c1_fail => .c1
   | .store _ _ => .b0
-  | .build _ => .wt
+  | .build _ => .wu
   | .y1 => .y1
   | .y2 => .y2
   | .y3_last => .y3
@@ -321,6 +330,8 @@ def Label.dst : Label → Pc
   | .r8 => .c0
   | .c0_ok => .rd
   | .c0_grow => .u1
+  | .use_r => .ru
+  | .use_w => .wu
   | .rd_end => .x1
   | .x1 => .x2
   | .x2_last => .x3
@@ -403,6 +414,8 @@ def Label.vis : Label → Vis
   | .e6 => .v .m1
   | .e7 => .v .r
   | .e8 => .v .m3
+  | .use_r => .use
+  | .use_w => .use
   | _ => .tau
 
 /-- the C condition / semaphore state that allows the step -/
@@ -468,6 +481,8 @@ instance (l : Label) (s : St) : Decidable (guardX l s) :=
   | .r8 => inferInstanceAs (Decidable (True))
   | .c0_ok => inferInstanceAs (Decidable (0 < s.flen))
   | .c0_grow => inferInstanceAs (Decidable (True))
+  | .use_r => inferInstanceAs (Decidable (True))
+  | .use_w => inferInstanceAs (Decidable (True))
   | .rd_end => inferInstanceAs (Decidable (True))
   | .x1 => inferInstanceAs (Decidable (s.m1 = 0))
   | .x2_last => inferInstanceAs (Decidable (s.readcount = 1))
@@ -592,8 +607,8 @@ def Step (s t : St) : Prop := ∃ l, fire l s = some t
 
 /-- every program point -/
 def allS : List Pc :=
-  [.idle, .i0, .i1, .i2, .i3, .i4, .i5, .i6, .r1, .r2, .r3, .r4, .r5, .r6, .r7, .r8, .c0, .rd, .x1, .x2, .x3, .x4,
-   .u1, .u2, .u3, .u4, .w1, .w2, .w3, .w4, .w5, .c1, .b0, .wt, .y1, .y2, .y3, .y4, .y5, .d1, .d2, .d3, .d4, .d5,
+  [.idle, .i0, .i1, .i2, .i3, .i4, .i5, .i6, .r1, .r2, .r3, .r4, .r5, .r6, .r7, .r8, .c0, .rd, .ru, .x1, .x2, .x3, .x4,
+   .u1, .u2, .u3, .u4, .w1, .w2, .w3, .w4, .w5, .c1, .b0, .wt, .wu, .y1, .y2, .y3, .y4, .y5, .d1, .d2, .d3, .d4, .d5,
    .e1, .e2, .e3, .e4, .e5, .e6, .e7, .e8, .c2]
 
 /-- `Σ_{p ∈ L} w p * f p`: with a 0/1 weight `w`, the number of threads at the points selected by `w` -/
@@ -611,19 +626,19 @@ def inInitW : Pc → Nat
   | _ => 0
 /-- holding the writer role: from P(w) in `become_writer` until V(w) in `cease_writing` -/
 def writersW : Pc → Nat
-  | .c1 | .b0 | .wt | .y1 | .d1 => 1
+  | .c1 | .b0 | .wt | .wu | .y1 | .d1 => 1
   | _ => 0
 /-- holding the reader role: counted in `readcount` while the reader group holds `w` -/
 def readersW : Pc → Nat
-  | .r6 | .r7 | .r8 | .c0 | .rd | .x1 | .x2 | .u1 | .u2 | .e6 | .e7 | .e8 | .c2 => 1
+  | .r6 | .r7 | .r8 | .c0 | .rd | .ru | .x1 | .x2 | .u1 | .u2 | .e6 | .e7 | .e8 | .c2 => 1
   | _ => 0
 /-- re-allocating (`b0`) or rebuilding (`wt`) the tables -/
 def rebuildingW : Pc → Nat
-  | .b0 | .wt => 1
+  | .b0 | .wt | .wu => 1
   | _ => 0
 /-- inside a transform that only reads the tables -/
 def readingW : Pc → Nat
-  | .rd => 1
+  | .rd | .ru => 1
   | _ => 0
 /-- anywhere -/
 def allW : Pc → Nat := fun _ => 1
@@ -693,7 +708,7 @@ def St.compact (s : St) : St :=
     source point / visible action) -/
 def allLabels (len : Int) (z : Bool := false) : List Label :=
   [.call, .i0_warm, .i0_cold, .ini1, .ini2, .ini3, .ini4, .ini5, .ini6, .r1,
-   .r2, .r3, .r4_first, .r4_more, .r5, .r6, .r7, .r8, .c0_ok, .c0_grow,
+   .r2, .r3, .r4_first, .r4_more, .r5, .r6, .r7, .r8, .c0_ok, .c0_grow, .use_r, .use_w,
    .rd_end, .x1, .x2_last, .x2_more, .x3, .x4, .u1, .u2_last, .u2_more, .u3,
    .u4, .w1, .w2_first, .w2_more, .w3, .w4, .w5, .c1_pass len, .c1_fail, .store len z,
    .build len, .y1, .y2, .y3_last, .y3_more, .y4, .y5, .d1, .d2, .d3_last,
